@@ -92,6 +92,7 @@ pub fn generate(seed: u64, prof: &GenProfile) -> History {
     let n_clients = prof.min_clients + rng.usize(prof.max_clients - prof.min_clients + 1);
     let n_ops = prof.min_ops + rng.usize(prof.max_ops - prof.min_ops + 1);
     let mut bel: Vec<Belief> = vec![Belief::default(); n_clients];
+    let mut last_snap_pay: Vec<Option<PaySpec>> = vec![None; n_clients];
     let mut ops = Vec::with_capacity(n_ops);
     let mut fresh_n = 0usize;
     let mut uniq = seed.wrapping_mul(1000003);
@@ -120,7 +121,7 @@ pub fn generate(seed: u64, prof: &GenProfile) -> History {
             }
         };
         if prof.shift_per_1k > 0 && rng.below(1000) < prof.shift_per_1k as u64 {
-            ops.push(Op { client: c, kind: OpKind::ShiftSnapshotTime { days_older: *rng.pick(&[1i64, 13, 14, 15, 21, 22, 100, 400, 5000, -1, -2, -30]) } });
+            ops.push(Op { client: c, kind: OpKind::ShiftSnapshotTime { days_older: *rng.pick(&[1i64, 13, 14, 15, 21, 22, 100, 400, 5000, 20_300, -1, -2, -30]) } });
             continue;
         }
         if prof.pause_per_10k > 0 && rng.below(10_000) < prof.pause_per_10k as u64 {
@@ -267,7 +268,14 @@ pub fn generate(seed: u64, prof: &GenProfile) -> History {
                         continue;
                     }
                 }
-                OpKind::AddSnapshot { vid, pay: PaySpec::new(len, 9, uniq) }
+                // now and then a replica sends the very bytes of its previous snapshot upload again,
+                // for whatever version it is at by then
+                let pay = match last_snap_pay[c] {
+                    Some(p) if !prof.aligned && rng.pct(7) => p,
+                    _ => PaySpec::new(len, 9, uniq),
+                };
+                last_snap_pay[c] = Some(pay);
+                OpKind::AddSnapshot { vid, pay }
             }
             _ => OpKind::GetSnapshot,
         };
